@@ -133,11 +133,28 @@ pub fn views<const L: usize>(b: &OrderBook<L>) -> Value {
     })
 }
 
-/// The trading flag is only visible through the serialised form.
+/// The trading flag has no getter.  It is read from the serialised form; if the serialised form does not show it (a snapshot
+/// format is free to omit a default), it is observed behaviourally on a copy loaded from that snapshot: a market order is
+/// rejected exactly when trading is disabled.
 pub fn trading_flag<const L: usize>(b: &OrderBook<L>) -> Value {
-    match serde_json::to_value(b) {
-        Ok(v) => v.get("trading").cloned().unwrap_or(json!("missing")),
-        Err(e) => json!(format!("serialise error {}", e)),
+    let v = match serde_json::to_value(b) {
+        Ok(v) => v,
+        Err(e) => return json!(format!("serialise error {}", e)),
+    };
+    if let Some(f) = v.get("trading") {
+        if f.is_boolean() {
+            return f.clone();
+        }
+    }
+    match serde_json::from_value::<OrderBook<L>>(v) {
+        Ok(mut copy) => match guarded(AssertUnwindSafe(|| {
+            let id = copy.create_and_place_order(Side::Bid, 1, 0, None).expect("market orders can always be created");
+            copy.order(id).status == Status::Rejected
+        })) {
+            Ok(rejected) => json!(!rejected),
+            Err(m) => json!(format!("PANIC probing the trading flag: {}", m)),
+        },
+        Err(e) => json!(format!("trading flag not observable: {}", e)),
     }
 }
 
